@@ -34,9 +34,8 @@ Definition c4_eqb (a b : c4) : bool :=
 
 Definition c4_max (a b : c4) : c4 := c4_map2 N.max a b.
 
-(* Which repairs are applied.
-   fix_counters, fix_stop, fix_active: committed in /repo (7e92d8e, e0693a6, d70a5ae).
-   fix_sent, fix_order, fix_l2stop: recorded findings, not in /repo HEAD. *)
+(* Which repairs are applied.  Committed in /repo: fix_counters (7e92d8e), fix_stop (e0693a6), fix_active (d70a5ae),
+   fix_sent (9b87063), fix_l2stop (d95fed1).  Still open (known finding): fix_order. *)
 Record variant := Variant {
   fix_counters : bool;   (* applyVPPCounters also treats "cumulative < last reported" as a regress *)
   fix_stop : bool;       (* handleSessionRelease sends Stop only when it removed an acctCache entry *)
@@ -46,10 +45,11 @@ Record variant := Variant {
   fix_order : bool;      (* the provider calls of one session reach the provider in the order they were issued *)
   fix_l2stop : bool      (* the Stop of an l2gw session reads the l2gw stats segment like its Interims *)
 }.
-(* the code at /repo HEAD, with any subset of the three open repairs *)
+(* V s o l: the first three repairs plus any subset of the later three (the proofs are uniform in s, o, l) *)
 Definition V (s o l : bool) : variant := Variant true true true s o l.
-Definition head : variant := V false false false.
+Definition head : variant := V true false true.        (* /repo HEAD: everything but the ordered delivery *)
 Definition repaired : variant := V true true true.
+Definition before_9b87063 : variant := V false false false.   (* HEAD before the sent-floor and l2gw-stop fixes *)
 Definition defective : variant := Variant false false false false false false.   (* the code as first found *)
 
 (* AccountingSession: the fields the property depends on *)
@@ -145,6 +145,8 @@ Inductive sev :=
 | ERestored (i h : N)             (* TopicSessionRestored, IfIndex i *)
 | EReleased (sn : snaps)          (* TopicSessionLifecycle, state released; sn = stats snapshot at that time *)
 | ETick (sn : snaps) (ok : bool)  (* the session's bucket fires; ok = Accounting-Response received *)
+| EAck                            (* the Accounting-Response of an Interim sent earlier ([ETick _ false] = "no response
+                                     yet") arrives late: advanceLastReported to the value sent, checkpoint *)
 | ERestart                        (* process restart: new component, loadAcctSessions *)
 | EPrune (past : bool).           (* pruneOrphanedAcctEntries; past = now is after the confirm deadline *)
 
@@ -190,6 +192,12 @@ Definition lstep (v : variant) (g : bool) (s : sst) (ev : sev) : sst * list out 
         | None => (s, [])
         end
       else (s, [])
+  | EAck =>
+      match cache s with
+      | Some e => let e'' := Sess (ifx e) (hfx e) (floor v e) (hw e) (base e) (prior e) (pending e) in
+                  (Sst (inb s) (Some e'') (Some e''), [])
+      | None => (s, [])
+      end
   | ERestart =>
       (Sst false
            (match db s with
@@ -234,6 +242,7 @@ Inductive gev :=
 | GRestored (j : nat) (i h : N)
 | GReleased (j : nat) (sn : snaps)
 | GTick (b : N) (fails : list nat) (sn : snaps)     (* ProcessAccountingBucket b *)
+| GAck (j : nat)                                     (* late Accounting-Response for session j's Interim *)
 | GRestart
 | GPrune (past : bool).
 
@@ -249,6 +258,7 @@ Definition project (bk : list N) (j : nat) (g : gev) : option sev :=
       | Some bj => if N.eqb bj b then Some (ETick sn (negb (mem_nat j fails))) else None
       | None => None
       end
+  | GAck k => if Nat.eqb j k then Some EAck else None
   | GRestart => Some ERestart
   | GPrune past => Some (EPrune past)
   end.
@@ -309,6 +319,12 @@ Definition mon_step (fs : bool) (m : mst) (ev : sev) (o : list out) : option mst
         | _ => None
         end
       else match o with [] => Some m | _ => None end
+  | EAck =>
+      match o with
+      | [] => if m_open m then Some (Mst true true (m_pend m) (if fs then c4_max (m_ack m) (m_sent m) else m_ack m) (m_sent m))
+              else Some m
+      | _ => None
+      end
   | ERestart =>
       match o with
       | [] => if m_open m && m_pers m then Some (Mst true true true (m_ack m) (m_sent m)) else Some mst0
